@@ -103,6 +103,9 @@ pub trait Property: Sync + Send + 'static {
     fn label_floors(&self) -> Vec<(&'static str, f64)> {
         Vec::new()
     }
+    fn shrink_iters(&self) -> u32 {
+        20_000
+    }
     /// run the random search in a supervised child (abort / stack overflow / hang become observable)
     fn supervised(&self) -> bool {
         false
@@ -344,7 +347,7 @@ fn shard_search<P: Property>(
         cases,
         failure_persistence: None,
         rng_seed: RngSeed::Fixed(seed),
-        max_shrink_iters: 3000,
+        max_shrink_iters: prop.shrink_iters(),
         max_shrink_time: 0,
         max_local_rejects: 1,
         max_global_rejects: 1,
